@@ -423,7 +423,7 @@ func init() {
 			return fs
 		},
 		Run: func(r *verifReport) {
-			r.Rule = "(a) negotiation: policy set of A × policy set of B × every offer form (11 literal queries incl. unknown versions and v1, the peer's own QueryMessage, whitespace tags for {2},{3},{2,3},{1},{} at start/middle/end and the peer's own tagged Send, direct v2/v3 DH-Commit, v1 key exchange), each run to quiescence on FIFO queues and compared with the reference model chosen = max(offered ∩ mine), session ⇔ chosen allowed by the peer; version field of every emitted message checked against the emitter's policy. (b) pass-through: every text of length ≤ 9 (quick: 8) over {a, space, tab, ?} and every concatenation of ≤ 3 atoms from {x, tag base, its first 15 bytes, its last 15 bytes, v2 tag, v3 tag, 8 spaces, ?OT}, minus texts containing an OTR marker, through Send (4 sender policies) and Receive (3 receiver policies, plus two receivers that are in plaintext state with a key exchange under way). (c) a v3-only and a v2-only conversation in every state of an honest exchange (fresh, each handshake step in both roles, encrypted, after traffic, finished) × every input in the form of the forbidden version: each message kind and fragment of an exchange run under that version (whole and in its fragment format), the genuine next message of its own peer with the version field rewritten, and the genuine next message wrapped in 1-3 fragments of the forbidden version's fragment format (also followed by the genuine train): no plaintext, no OTR reply, no security/SMP event, conversation state hash unchanged, genuine traffic afterwards undisturbed. (d) every policy without a version (all 16 flag combinations) × {every message kind and fragment of a v2 and a v3 exchange, queries, error reports, truncated and marker-only messages, fragment-looking strings, tagged and plain text, the empty message}: Receive returns the message itself, nothing to send, no error, unchanged state; Send returns exactly the message"
+			r.Rule = "(a) negotiation: policy set of A × policy set of B × every offer form (11 literal queries incl. unknown versions and v1, the peer's own QueryMessage, whitespace tags for {2},{3},{2,3},{1},{} at start/middle/end and the peer's own tagged Send, direct v2/v3 DH-Commit, v1 key exchange), each run to quiescence on FIFO queues and compared with the reference model chosen = max(offered ∩ mine), session ⇔ chosen allowed by the peer; version field of every emitted message checked against the emitter's policy. (b) pass-through: every text of length ≤ 9 (quick: 8) over {a, space, tab, ?} and every concatenation of ≤ 3 atoms from {x, tag base, its first 15 bytes, its last 15 bytes, v2 tag, v3 tag, 8 spaces, ?OT}, minus texts containing an OTR marker, and one text of every length 1..2100, through Send (4 sender policies) and Receive (3 receiver policies, plus two receivers that are in plaintext state with a key exchange under way). (c) a v3-only and a v2-only conversation in every state of an honest exchange (fresh, each handshake step in both roles, encrypted, after traffic, finished) × every input in the form of the forbidden version: each message kind and fragment of an exchange run under that version (whole and in its fragment format), the genuine next message of its own peer with the version field rewritten, and the genuine next message wrapped in 1-3 fragments of the forbidden version's fragment format (also followed by the genuine train): no plaintext, no OTR reply, no security/SMP event, conversation state hash unchanged, genuine traffic afterwards undisturbed. (d) every policy without a version (all 16 flag combinations) × {every message kind and fragment of a v2 and a v3 exchange, queries, error reports, truncated and marker-only messages, fragment-looking strings, tagged and plain text, the empty message}: Receive returns the message itself, nothing to send, no error, unchanged state; Send returns exactly the message"
 			r.Assumptions = []string{"interleavings of the exchange are C07's job: FIFO round-robin delivery here", "a text 'contains an OTR marker' iff it contains \"?OTR\" or the complete 16-byte whitespace tag base"}
 			offers := c16Offers()
 			vers := []string{"2", "3", "23"}
@@ -515,6 +515,15 @@ func init() {
 				cnt := c13EnumCount(len(alpha), maxLen)
 				for i := 0; i < cnt; i++ {
 					yield(c13EnumString(i, alpha, maxLen))
+				}
+				// every length up to 2100 (allocation size classes, lengths around powers of two): the text must come
+				// out of Send and into Receive unchanged whatever room its buffer happens to have
+				for l := 1; l <= 2100; l++ {
+					t := make([]byte, l)
+					for i := range t {
+						t[i] = byte('a' + (i*7+l)%26)
+					}
+					yield(t)
 				}
 				for i := range atoms {
 					yield(atoms[i])
